@@ -382,14 +382,15 @@ class Advisory:
             self,
             afi: int | AFI,
             safi: int | SAFI,
-            advisory: str | bytes,
+            advisory: str | Buffer,
             routerid: RouterID | None = None,
         ) -> None:
-            # Handle both string and bytes input
-            if isinstance(advisory, bytes):
-                utf8 = advisory
-            else:
+            # Handle text, and any buffer: the decoder hands over a slice of what the reader
+            # delivered, which is a memoryview, and that has no encode()
+            if isinstance(advisory, str):
                 utf8 = advisory.encode('utf-8')
+            else:
+                utf8 = bytes(advisory)
             if len(utf8) > MAX_ADVISORY:
                 utf8 = utf8[: MAX_ADVISORY - 3] + b'...'
             Advisory._Advisory.__init__(self, Operational.CODE.ADM, afi, safi, utf8)
@@ -403,14 +404,15 @@ class Advisory:
             self,
             afi: int | AFI,
             safi: int | SAFI,
-            advisory: str | bytes,
+            advisory: str | Buffer,
             routerid: RouterID | None = None,
         ) -> None:
-            # Handle both string and bytes input
-            if isinstance(advisory, bytes):
-                utf8 = advisory
-            else:
+            # Handle text, and any buffer: the decoder hands over a slice of what the reader
+            # delivered, which is a memoryview, and that has no encode()
+            if isinstance(advisory, str):
                 utf8 = advisory.encode('utf-8')
+            else:
+                utf8 = bytes(advisory)
             if len(utf8) > MAX_ADVISORY:
                 utf8 = utf8[: MAX_ADVISORY - 3] + b'...'
             Advisory._Advisory.__init__(self, Operational.CODE.ASM, afi, safi, utf8)
